@@ -28,6 +28,12 @@ t := a * DINT#2;
 Leaf := t + DINT#1;
 END_FUNCTION
 
+FUNCTION Bump : DINT
+VAR_IN_OUT v : DINT; END_VAR
+v := v + DINT#1;
+Bump := v;
+END_FUNCTION
+
 FUNCTION Mid : DINT
 VAR_INPUT a : DINT; END_VAR
 VAR i : DINT; s : DINT; END_VAR
@@ -92,10 +98,31 @@ pub enum Cmd {
     StepOver(Option<u32>),
     StepOut(Option<u32>),
     SetBps(Vec<usize>), // indices into the statement location list
+    /// (location index, expression index in DEBUG_EXPRS, as logpoint): conditional breakpoints and logpoints whose
+    /// expressions go through the product's own filter (parse_debug_expression); what it refuses is not set
+    SetCondBps(Vec<(usize, usize, bool)>),
     ClearBps,
     Sleep(u64), // microseconds
     Yield,
 }
+
+/// Conditions / log expressions: pure ones (some never true, some sometimes true), and ones that call the user function
+/// `Bump`, which writes through its VAR_IN_OUT argument - directly, nested in or following an allowed pure call.
+/// Evaluating any accepted expression must leave the program's state sequence as it is.
+pub const DEBUG_EXPRS: [&str; 12] = [
+    "shared < DINT#0",
+    "shared > DINT#40",
+    "ABS(shared) < DINT#0",
+    "MAX(shared, DINT#3) = DINT#3",
+    "(shared MOD DINT#7) = DINT#0",
+    "Bump(shared) < DINT#0",
+    "ABS(Bump(shared)) < DINT#0",
+    "MAX(ABS(shared), Bump(shared)) < DINT#0",
+    "shared + Bump(shared) < DINT#0",
+    "SEL(FALSE, ABS(shared), Bump(shared)) < DINT#0",
+    "Leaf(a := shared) < DINT#0",
+    "ABS(shared) + Leaf(a := Bump(shared)) < DINT#0",
+];
 
 fn gen_script(rng: &mut Rng, nlocs: usize) -> Vec<Cmd> {
     let span = if rng.chance(1, 6) { 196 } else { 40 };
@@ -108,7 +135,8 @@ fn gen_script(rng: &mut Rng, nlocs: usize) -> Vec<Cmd> {
             5 | 6 => Cmd::StepIn(tid(rng)),
             7 | 8 => Cmd::StepOver(tid(rng)),
             9 => Cmd::StepOut(tid(rng)),
-            10 | 11 => Cmd::SetBps((0..1 + rng.usize(3)).map(|_| rng.usize(nlocs.max(1))).collect()),
+            10 => Cmd::SetBps((0..1 + rng.usize(3)).map(|_| rng.usize(nlocs.max(1))).collect()),
+            11 => Cmd::SetCondBps((0..1 + rng.usize(3)).map(|_| (rng.usize(nlocs.max(1)), rng.usize(DEBUG_EXPRS.len()), rng.chance(1, 3))).collect()),
             12 => Cmd::ClearBps,
             13 => Cmd::Yield,
             _ => {
@@ -347,12 +375,16 @@ pub struct RunOut {
     pub trace: String,
     pub stops_received: u64,
     pub stuck: Option<String>,
+    pub cond_accepted: u64,
+    pub cond_refused: u64,
 }
 
 fn run_once(script: &[Cmd], cycles: usize, trace_path: &std::path::Path, seed: u64) -> Result<RunOut, String> {
     let mut h = TestHarness::from_source(PROGRAM).map_err(|e| e.to_string())?;
     let dbg = h.runtime_mut().enable_debug();
     let locs: Vec<SourceLocation> = h.runtime().statement_locations(0).map(|l| l.to_vec()).unwrap_or_default();
+    let registry = h.runtime().registry().clone();
+    let (cond_accepted, cond_refused) = (AtomicU64::new(0), AtomicU64::new(0));
     let (stx, srx) = std::sync::mpsc::channel();
     dbg.set_stop_sender(stx);
     let offset = std::fs::metadata(trace_path).map(|m| m.len()).unwrap_or(0);
@@ -400,6 +432,26 @@ fn run_once(script: &[Cmd], cycles: usize, trace_path: &std::path::Path, seed: u
             }
             Cmd::SetBps(ix) => {
                 let bps: Vec<DebugBreakpoint> = ix.iter().filter_map(|i| locs.get(*i % locs.len().max(1))).map(|l| DebugBreakpoint::new(*l)).collect();
+                dbg.set_breakpoints_for_file(0, bps);
+            }
+            Cmd::SetCondBps(v) => {
+                let mut bps = Vec::new();
+                for (i, e, log) in v {
+                    let Some(l) = locs.get(*i % locs.len().max(1)) else { continue };
+                    let mut reg = registry.clone();
+                    let Ok(expr) = trust_runtime::harness::parse_debug_expression(DEBUG_EXPRS[*e % DEBUG_EXPRS.len()], &mut reg, Default::default(), &[]) else {
+                        cond_refused.fetch_add(1, Ordering::Relaxed);
+                        continue;
+                    };
+                    cond_accepted.fetch_add(1, Ordering::Relaxed);
+                    let mut bp = DebugBreakpoint::new(*l);
+                    if *log {
+                        bp.log_message = Some(vec![trust_runtime::debug::LogFragment::Text("v=".into()), trust_runtime::debug::LogFragment::Expr(expr)]);
+                    } else {
+                        bp.condition = Some(expr);
+                    }
+                    bps.push(bp);
+                }
                 dbg.set_breakpoints_for_file(0, bps);
             }
             Cmd::ClearBps => dbg.clear_breakpoints(),
@@ -459,7 +511,7 @@ fn run_once(script: &[Cmd], cycles: usize, trace_path: &std::path::Path, seed: u
     let mut trace = String::new();
     f.read_to_string(&mut trace).map_err(|e| e.to_string())?;
     let d = digests.lock().unwrap().clone();
-    Ok(RunOut { digests: d, finished, trace, stops_received, stuck })
+    Ok(RunOut { digests: d, finished, trace, stops_received, stuck, cond_accepted: cond_accepted.load(Ordering::Relaxed), cond_refused: cond_refused.load(Ordering::Relaxed) })
 }
 
 /// true once the trace, read from `mark` (taken before the command was applied), shows a hook line after the first action line
@@ -489,6 +541,7 @@ fn script_json(s: &[Cmd]) -> J {
             Cmd::StepOver(t) => json!(["over", t]),
             Cmd::StepOut(t) => json!(["out", t]),
             Cmd::SetBps(v) => json!(["bps", v]),
+            Cmd::SetCondBps(v) => json!(["condbps", v.iter().map(|(a, b, c)| json!([a, b, c])).collect::<Vec<_>>()]),
             Cmd::ClearBps => json!(["clear"]),
             Cmd::Sleep(u) => json!(["sleep", u]),
             Cmd::Yield => json!(["yield"]),
@@ -508,6 +561,7 @@ fn parse_script(v: &J) -> Vec<Cmd> {
                         "over" => Cmd::StepOver(t()),
                         "out" => Cmd::StepOut(t()),
                         "bps" => Cmd::SetBps(c[1].as_array().map(|x| x.iter().map(|i| i.as_u64().unwrap_or(0) as usize).collect()).unwrap_or_default()),
+                        "condbps" => Cmd::SetCondBps(c[1].as_array().map(|x| x.iter().map(|t| (t[0].as_u64().unwrap_or(0) as usize, t[1].as_u64().unwrap_or(0) as usize, t[2].as_bool().unwrap_or(false))).collect()).unwrap_or_default()),
                         "clear" => Cmd::ClearBps,
                         "sleep" => Cmd::Sleep(c[1].as_u64().unwrap_or(1)),
                         _ => Cmd::Yield,
@@ -546,6 +600,8 @@ fn one(sh: &mut Shard, script: Vec<Cmd>, cycles: usize, reference: &[u64], trace
                     Err((sig, d)) => sh.violation(sig, format!("{d}\nlast trace lines:\n{tail}"), case.clone()),
                     Ok(v) => {
                         sh.count("trace_events_checked", evs.len() as u64);
+                        sh.count("debug_expressions_accepted_and_attached", out.cond_accepted);
+                        sh.count("debug_expressions_refused_by_the_purity_filter", out.cond_refused);
                         sh.count("stops", v.stops);
                         sh.count("resume_actions_while_stopped", v.resumes_in_episode);
                         sh.count("step_semantics_checked", v.step_checks);
